@@ -240,6 +240,10 @@ class Renderer:
         else:
             L.append(f"{ind}subroutine {name}(a)")
         i2 = ind + "  "
+        local_type = internal and self.rng.random() < 0.5
+        if local_type and self.rng.random() < 0.4:
+            # per-procedure metadata: this procedure shows its internals whatever the project says
+            L.append(f"{i2}!! proc_internals: true")
         L += _doc(i2, self.u(), self.pick())
         L.append(f"{i2}integer, intent(in) :: a")
         L += _doc(i2 + "  ", self.u(), self.pick(1))
@@ -257,10 +261,18 @@ class Renderer:
             L.append(f"{i2}namelist /nl_{name}/ nlv")
             L += _doc(i2 + "  ", self.u(), self.pick(1))
             self.refs += [f"nl_{name}(namelist)"]
-        if internal and self.rng.random() < 0.4:
+        if local_type:
+            # a derived type declared inside the procedure; every other one has a CONTAINS part with
+            # bindings to procedures of the host module and a generic binding
             L += [f"{i2}type :: inner_{name}_t", f"{i2}  !! zq{self.u()}w"]
             L += [f"{i2}  !! see [[{r}]] here" for r in self.pick(1)]
-            L += [f"{i2}  integer :: z", f"{i2}end type inner_{name}_t"]
+            L += [f"{i2}  integer :: z"]
+            targets = [c for c in calls] or ([name] if module else [])
+            if targets and self.rng.random() < 0.7:
+                L += [f"{i2}contains", f"{i2}  procedure, nopass :: add => {targets[0]}", f"{i2}    !! zq{self.u()}w"]
+                L += [f"{i2}  procedure, nopass :: add2 => {targets[-1] if len(targets) > 1 else name}"]
+                L += [f"{i2}  generic :: update => add, add2", f"{i2}    !! zq{self.u()}w"]
+            L += [f"{i2}end type inner_{name}_t"]
         L.append(f"{i2}nlv = a")
         for c in calls:
             L.append(f"{i2}nlv = nlv + 1")
